@@ -38,6 +38,7 @@ def check(run):
             run.note_drift("outside Allowed but owned by another property: " + ve.coarse_sig(o))
     # 4. code -> spec traces: random adversarial envelopes judged by TLC
     traces_verify.random_traces(run, n=2000 if quick else 50000, owner=owns)
+    traces_verify.big_envelopes(run, n=12 if quick else 200, owner=owns)
 
 
 def replay(payload):
